@@ -13,6 +13,7 @@ import (
 	"strconv"
 	"strings"
 	"sync"
+	"sync/atomic"
 	"testing"
 	"testing/synctest"
 	"time"
@@ -246,6 +247,14 @@ type ReplayFile struct {
 
 const maxSigs = 300000
 
+// lastBeat is the wall-clock time of the last sign of progress of the run in
+// flight (unix nanoseconds). Plans that enumerate a dimension call Beat once
+// per element so that a long but progressing run is never taken for a hang.
+var lastBeat atomic.Int64
+
+// Beat tells the watchdog that the current run is making progress.
+func Beat() { lastBeat.Store(time.Now().UnixNano()) }
+
 type workerState struct {
 	mu      sync.Mutex
 	rep     *Report
@@ -327,6 +336,9 @@ func RunWorker[P any](t *testing.T, e Engine[P]) {
 				continue
 			}
 			runtime.ReadMemStats(&ms)
+			if b := time.Unix(0, lastBeat.Load()); b.After(t0) {
+				t0 = b
+			}
 			over := time.Since(t0) > runLimit
 			fat := ms.HeapAlloc > memLimit
 			if over || fat {
@@ -351,6 +363,7 @@ func RunWorker[P any](t *testing.T, e Engine[P]) {
 		pj, _ := json.Marshal(p)
 		ws.mu.Lock()
 		ws.curPlan, ws.curIdx, ws.curT0, ws.running = pj, idx, time.Now(), true
+		Beat()
 		ws.mu.Unlock()
 		os.WriteFile(out+".cur", mustJSON(map[string]any{"run_index": idx, "plan": json.RawMessage(pj), "kind": "crash"}), 0o644)
 		defer func() {
